@@ -33,6 +33,9 @@ FamLen  == UNION { { A(n) \o <<AT>> \o xcom,
                      A(n - 2) \o <<195, 169, AT>> \o xcom,
                      <<DQ, 97, AT>> \o A(n - 4) \o <<DQ, AT>> \o xcom,           \* an '@' inside a quoted local part of n octets
                      <<DQ, AT>> \o A(n - 3) \o <<DQ, AT, LBR, 49, DOT, 50, DOT, 51, DOT, 52, RBR>> } : n \in 58..70 }
+           \cup UNION { { A(n) \o <<AT>> \o xcom, JoinWith([i \in 1..((n + 1) \div 2) |-> <<97>>], DOT) \o <<AT>> \o xcom,
+                          <<DQ>> \o A(n) \o <<DQ, AT>> \o xcom, <<120, AT>> \o A(n) \o <<DOT>> \o S_com,
+                          <<120, AT>> \o JoinWith(<<A(n), A(n), A((n % 60) + 1), S_com>>, DOT) } : n \in 1..57 }
 Family == FamPool \cup FamLen
 
 Bucket(x) == IF Len(x) = 0 THEN 0 ELSE (Len(x) * 7 + x[Len(x)] + x[(Len(x) + 1) \div 2]) % 64
